@@ -3,6 +3,7 @@ package main
 import (
 	"go/ast"
 	"go/token"
+	"go/types"
 )
 
 // One normalisation of the loaded syntax, applied once after loading and before any rule looks: a tagless
@@ -140,6 +141,420 @@ func desugarSwitches(p *Prog) int {
 					break
 				}
 			}
+		}
+	}
+	return n
+}
+
+// A second normalisation, applied after the first: the hand-written spellings of the min and max builtins. With P, Q
+// the operands of one ordering test and m the builtin that the test selects (P when P < Q: min; P when P > Q: max; <=
+// and >= likewise; the operands may be written in either order and under conversions):
+//
+//	if P < Q { X = P } else { X = Q }         X = m(P, Q)
+//	X = Q; if P < Q { X = P }                 X = m(P, Q)      (the if may carry an init statement, which is kept)
+//	if A > B { A = B }                        A = m(A, B)      (the previous line with X = A implicit)
+//	X = V; if X > B { X = B }                 X = m(V, B)      (a clamp right after the value is set: one statement)
+//	if A == 0 { A = 1 }                       A = max(A, 1)    (A unsigned)
+//	if P < Q { return P }; return Q           return m(P, Q)   (also with else; when Q is a local that is updated
+//	                                                            elsewhere in the function:  Q = m(Q, P); return Q)
+//	if A < B { A = 0 } else { A -= B }        A -= min(A, B)   (branches in either order, A = A - B for A -= B)
+//	if A < B { return 0 }; return A - B       return A - min(A, B)
+//
+// X, A are variables or field paths of integer type. Both sides of each line compute the same value for every input,
+// so rules see one spelling only: a clamp written with the builtin and a clamp written as a branch are the same clamp,
+// and one with the comparison turned round is the other builtin. The synthesised call carries the target's type and
+// resolves `min`/`max` to the universe builtins.
+func desugarClamps(p *Prog) int {
+	n := 0
+	for _, pk := range p.Pkgs {
+		info := pk.TypesInfo
+		strip := func(e ast.Expr) ast.Expr {
+			for {
+				e = ast.Unparen(e)
+				c, ok := e.(*ast.CallExpr)
+				if !ok || !isConversion(info, c) || len(c.Args) != 1 {
+					return e
+				}
+				e = c.Args[0]
+			}
+		}
+		var path func(e ast.Expr) bool
+		path = func(e ast.Expr) bool {
+			switch x := ast.Unparen(e).(type) {
+			case *ast.Ident:
+				_, isVar := info.ObjectOf(x).(*types.Var)
+				return isVar
+			case *ast.SelectorExpr:
+				if s := info.Selections[x]; s != nil && s.Kind() == types.FieldVal {
+					return path(x.X)
+				}
+			}
+			return false
+		}
+		intTyped := func(e ast.Expr) bool {
+			t := info.TypeOf(e)
+			if t == nil {
+				return false
+			}
+			b, ok := t.Underlying().(*types.Basic)
+			return ok && b.Info()&types.IsInteger != 0
+		}
+		unsigned := func(e ast.Expr) bool {
+			b, ok := info.TypeOf(e).Underlying().(*types.Basic)
+			return ok && b.Info()&types.IsUnsigned != 0
+		}
+		text := func(e ast.Expr) string { return types.ExprString(strip(e)) }
+		same := func(a, b ast.Expr) bool { return text(a) == text(b) }
+		mentions := func(e ast.Node, x ast.Expr) bool {
+			want := text(x)
+			found := false
+			ast.Inspect(e, func(k ast.Node) bool {
+				if ex, ok := k.(ast.Expr); ok && types.ExprString(ex) == want {
+					found = true
+				}
+				return !found
+			})
+			return found
+		}
+		var clone func(e ast.Expr) ast.Expr
+		clone = func(e ast.Expr) ast.Expr {
+			switch x := e.(type) {
+			case *ast.Ident:
+				c := *x
+				if o := info.Uses[x]; o != nil {
+					info.Uses[&c] = o
+				} else if o := info.Defs[x]; o != nil {
+					info.Uses[&c] = o
+				}
+				if tv, ok := info.Types[x]; ok {
+					info.Types[&c] = tv
+				} else if o := info.ObjectOf(x); o != nil {
+					info.Types[&c] = info.Types[x]
+				}
+				return &c
+			case *ast.SelectorExpr:
+				c := *x
+				c.X = clone(x.X)
+				c.Sel = clone(x.Sel).(*ast.Ident)
+				if s := info.Selections[x]; s != nil {
+					info.Selections[&c] = s
+				}
+				if tv, ok := info.Types[x]; ok {
+					info.Types[&c] = tv
+				}
+				return &c
+			case *ast.ParenExpr:
+				return clone(x.X)
+			}
+			return e
+		}
+		// m(a, b) typed like `like`
+		builtin := func(name string, at token.Pos, a, b ast.Expr, like ast.Expr) *ast.CallExpr {
+			id := &ast.Ident{NamePos: at, Name: name}
+			info.Uses[id] = types.Universe.Lookup(name)
+			call := &ast.CallExpr{Fun: id, Lparen: at, Args: []ast.Expr{a, b}, Rparen: b.End()}
+			tv := info.Types[ast.Unparen(like)]
+			tv.Value = nil
+			if tv.Type == nil {
+				tv.Type = info.TypeOf(like)
+			}
+			info.Types[call] = tv
+			return call
+		}
+		constIs := func(e ast.Expr, want int64) bool {
+			tv, ok := info.Types[e]
+			if !ok || tv.Value == nil {
+				return false
+			}
+			v, ok := constantInt(tv)
+			return ok && v == want
+		}
+		// which builtin does `P op Q ? V1 : V2` compute, {V1, V2} = {P, Q}?
+		selector := func(be *ast.BinaryExpr, v1, v2 ast.Expr) string {
+			var first bool // V1 is P
+			switch {
+			case same(be.X, v1) && same(be.Y, v2):
+				first = true
+			case same(be.Y, v1) && same(be.X, v2):
+				first = false
+			default:
+				return ""
+			}
+			switch be.Op {
+			case token.LSS, token.LEQ:
+				if first {
+					return "min"
+				}
+				return "max"
+			case token.GTR, token.GEQ:
+				if first {
+					return "max"
+				}
+				return "min"
+			}
+			return ""
+		}
+		oneAssign := func(b ast.Stmt) *ast.AssignStmt {
+			blk, ok := b.(*ast.BlockStmt)
+			if !ok || len(blk.List) != 1 {
+				return nil
+			}
+			as, ok := blk.List[0].(*ast.AssignStmt)
+			if !ok || len(as.Lhs) != 1 || len(as.Rhs) != 1 {
+				return nil
+			}
+			return as
+		}
+		oneReturn := func(st ast.Stmt) *ast.ReturnStmt {
+			if blk, ok := st.(*ast.BlockStmt); ok {
+				if len(blk.List) != 1 {
+					return nil
+				}
+				st = blk.List[0]
+			}
+			r, ok := st.(*ast.ReturnStmt)
+			if !ok || len(r.Results) != 1 {
+				return nil
+			}
+			return r
+		}
+		cmpOf := func(is *ast.IfStmt) *ast.BinaryExpr {
+			be, _ := ast.Unparen(is.Cond).(*ast.BinaryExpr)
+			return be
+		}
+		// how often the function assigns each local (to tell an accumulator from a value that is set once)
+		assignCount := map[types.Object]int{}
+		for _, f := range pk.Syntax {
+			ast.Inspect(f, func(k ast.Node) bool {
+				switch x := k.(type) {
+				case *ast.AssignStmt:
+					for _, l := range x.Lhs {
+						if id, ok := ast.Unparen(l).(*ast.Ident); ok {
+							if o := info.ObjectOf(id); o != nil {
+								assignCount[o]++
+							}
+						}
+					}
+				case *ast.IncDecStmt:
+					if id, ok := ast.Unparen(x.X).(*ast.Ident); ok {
+						if o := info.ObjectOf(id); o != nil {
+							assignCount[o]++
+						}
+					}
+				}
+				return true
+			})
+		}
+		// one statement (with its predecessor and successor in the list) -> its replacement(s); consumed says how many
+		// neighbours were absorbed
+		type repl struct {
+			stmts              []ast.Stmt
+			eatsPrev, eatsNext bool
+		}
+		convert := func(prev ast.Stmt, is *ast.IfStmt, next ast.Stmt) *repl {
+			be := cmpOf(is)
+			if be == nil {
+				return nil
+			}
+			body := oneAssign(is.Body)
+			// --- assignments
+			if body != nil && path(body.Lhs[0]) && intTyped(body.Lhs[0]) {
+				x := body.Lhs[0]
+				if is.Else != nil {
+					withInit := func(r *repl) *repl {
+						if r != nil && is.Init != nil {
+							r.stmts = append([]ast.Stmt{is.Init}, r.stmts...)
+						}
+						return r
+					}
+					other := oneAssign(is.Else)
+					if other == nil || !same(other.Lhs[0], x) {
+						return nil
+					}
+					// select: if P op Q { X = V1 } else { X = V2 }
+					if body.Tok == token.ASSIGN && other.Tok == token.ASSIGN {
+						if name := selector(be, body.Rhs[0], other.Rhs[0]); name != "" {
+							return withInit(&repl{stmts: []ast.Stmt{&ast.AssignStmt{Lhs: []ast.Expr{x}, TokPos: body.TokPos, Tok: token.ASSIGN, Rhs: []ast.Expr{builtin(name, is.Cond.Pos(), other.Rhs[0], body.Rhs[0], x)}}}})
+						}
+					}
+					// saturating subtraction: one branch zeroes A, the other subtracts B, the zeroing one taken when A < B
+					zero, sub := body, other
+					op := be.Op
+					var b ast.Expr
+					switch {
+					case same(be.X, x):
+						b = be.Y
+					case same(be.Y, x):
+						b, op = be.X, flipOp[op]
+					default:
+						return nil
+					}
+					switch op {
+					case token.LSS, token.LEQ:
+					case token.GTR, token.GEQ:
+						zero, sub = other, body
+					default:
+						return nil
+					}
+					if zero.Tok != token.ASSIGN || !constIs(zero.Rhs[0], 0) {
+						return nil
+					}
+					var subtrahend ast.Expr
+					switch {
+					case sub.Tok == token.SUB_ASSIGN:
+						subtrahend = sub.Rhs[0]
+					case sub.Tok == token.ASSIGN:
+						if d, ok := ast.Unparen(sub.Rhs[0]).(*ast.BinaryExpr); ok && d.Op == token.SUB && same(d.X, x) {
+							subtrahend = d.Y
+						}
+					}
+					if subtrahend == nil || !same(subtrahend, b) {
+						return nil
+					}
+					return withInit(&repl{stmts: []ast.Stmt{&ast.AssignStmt{Lhs: []ast.Expr{sub.Lhs[0]}, TokPos: sub.TokPos, Tok: token.SUB_ASSIGN, Rhs: []ast.Expr{builtin("min", is.Cond.Pos(), clone(x), subtrahend, x)}}}})
+				}
+				if is.Else != nil || body.Tok != token.ASSIGN {
+					return nil
+				}
+				// clamp of the variable itself
+				if is.Init == nil && (same(be.X, x) || same(be.Y, x)) {
+					if be.Op == token.EQL && unsigned(x) && constIs(body.Rhs[0], 1) && ((same(be.X, x) && constIs(be.Y, 0)) || (same(be.Y, x) && constIs(be.X, 0))) {
+						return &repl{stmts: []ast.Stmt{&ast.AssignStmt{Lhs: []ast.Expr{x}, TokPos: body.TokPos, Tok: token.ASSIGN, Rhs: []ast.Expr{builtin("max", is.Cond.Pos(), clone(x), body.Rhs[0], x)}}}}
+					}
+					if name := selector(be, body.Rhs[0], x); name != "" {
+						// X = V just before: the clamp of that value, in one statement
+						if pa, ok := prev.(*ast.AssignStmt); ok && len(pa.Lhs) == 1 && len(pa.Rhs) == 1 && (pa.Tok == token.ASSIGN || pa.Tok == token.DEFINE) &&
+							same(pa.Lhs[0], x) && !mentions(pa.Rhs[0], x) && !mentions(body.Rhs[0], x) && intTyped(pa.Rhs[0]) {
+							return &repl{stmts: []ast.Stmt{&ast.AssignStmt{Lhs: []ast.Expr{pa.Lhs[0]}, TokPos: pa.TokPos, Tok: pa.Tok, Rhs: []ast.Expr{builtin(name, is.Cond.Pos(), pa.Rhs[0], body.Rhs[0], x)}}}, eatsPrev: true}
+						}
+						return &repl{stmts: []ast.Stmt{&ast.AssignStmt{Lhs: []ast.Expr{x}, TokPos: body.TokPos, Tok: token.ASSIGN, Rhs: []ast.Expr{builtin(name, is.Cond.Pos(), clone(x), body.Rhs[0], x)}}}}
+					}
+					return nil
+				}
+				// default set just before: X = V2; if P op Q { X = V1 }
+				if pa, ok := prev.(*ast.AssignStmt); ok && len(pa.Lhs) == 1 && len(pa.Rhs) == 1 && (pa.Tok == token.ASSIGN || pa.Tok == token.DEFINE) &&
+					same(pa.Lhs[0], x) && !mentions(is.Cond, x) && (is.Init == nil || !mentions(is.Init, x)) {
+					if name := selector(be, body.Rhs[0], pa.Rhs[0]); name != "" {
+						out := []ast.Stmt{}
+						if is.Init != nil {
+							out = append(out, is.Init)
+						}
+						out = append(out, &ast.AssignStmt{Lhs: []ast.Expr{pa.Lhs[0]}, TokPos: pa.TokPos, Tok: pa.Tok, Rhs: []ast.Expr{builtin(name, is.Cond.Pos(), pa.Rhs[0], body.Rhs[0], x)}})
+						return &repl{stmts: out, eatsPrev: true}
+					}
+				}
+				return nil
+			}
+			// --- returns
+			then := oneReturn(is.Body)
+			if then == nil || is.Init != nil {
+				return nil
+			}
+			var other *ast.ReturnStmt
+			eats := false
+			if is.Else != nil {
+				other = oneReturn(is.Else)
+			} else if next != nil {
+				other = oneReturn(next)
+				eats = true
+			}
+			if other == nil || !intTyped(other.Results[0]) {
+				return nil
+			}
+			if name := selector(be, then.Results[0], other.Results[0]); name != "" {
+				call := builtin(name, is.Cond.Pos(), other.Results[0], then.Results[0], other.Results[0])
+				// an accumulator handed out clamped: its last update
+				if id, ok := ast.Unparen(other.Results[0]).(*ast.Ident); ok {
+					if v, ok := info.ObjectOf(id).(*types.Var); ok && !v.IsField() && assignCount[v] >= 2 {
+						call.Args[0] = clone(id)
+						return &repl{stmts: []ast.Stmt{
+							&ast.AssignStmt{Lhs: []ast.Expr{clone(id)}, TokPos: call.Pos(), Tok: token.ASSIGN, Rhs: []ast.Expr{call}},
+							&ast.ReturnStmt{Return: other.Return, Results: []ast.Expr{id}}}, eatsNext: eats}
+					}
+				}
+				return &repl{stmts: []ast.Stmt{&ast.ReturnStmt{Return: other.Return, Results: []ast.Expr{call}}}, eatsNext: eats}
+			}
+			// saturating subtraction handed out: one return is 0, the other A - B, 0 when A < B
+			zero, diff := then, other
+			var d *ast.BinaryExpr
+			if constIs(other.Results[0], 0) {
+				zero, diff = other, then
+			}
+			if !constIs(zero.Results[0], 0) {
+				return nil
+			}
+			d, ok := ast.Unparen(diff.Results[0]).(*ast.BinaryExpr)
+			if !ok || d.Op != token.SUB || !intTyped(d.X) {
+				return nil
+			}
+			// the zero branch is taken when A < B (or A <= B)
+			op := be.Op
+			switch {
+			case same(be.X, d.X) && same(be.Y, d.Y):
+			case same(be.Y, d.X) && same(be.X, d.Y):
+				op = flipOp[op]
+			default:
+				return nil
+			}
+			if zero != then {
+				op = negOp[op]
+			}
+			if op != token.LSS && op != token.LEQ {
+				return nil
+			}
+			sub := &ast.BinaryExpr{X: d.X, OpPos: d.OpPos, Op: token.SUB, Y: builtin("min", is.Cond.Pos(), clone(d.X), d.Y, d.X)}
+			info.Types[sub] = info.Types[d]
+			return &repl{stmts: []ast.Stmt{&ast.ReturnStmt{Return: other.Return, Results: []ast.Expr{sub}}}, eatsNext: eats}
+		}
+		rewriteList := func(list []ast.Stmt) []ast.Stmt {
+			changed := false
+			var out []ast.Stmt
+			for i := 0; i < len(list); i++ {
+				st := list[i]
+				is, ok := st.(*ast.IfStmt)
+				if !ok {
+					out = append(out, st)
+					continue
+				}
+				var prev, next ast.Stmt
+				if len(out) > 0 {
+					prev = out[len(out)-1]
+				}
+				if i+1 < len(list) {
+					next = list[i+1]
+				}
+				r := convert(prev, is, next)
+				if r == nil {
+					out = append(out, st)
+					continue
+				}
+				changed = true
+				n++
+				if r.eatsPrev {
+					out = out[:len(out)-1]
+				}
+				out = append(out, r.stmts...)
+				if r.eatsNext {
+					i++
+				}
+			}
+			if !changed {
+				return list
+			}
+			return out
+		}
+		for _, f := range pk.Syntax {
+			ast.Inspect(f, func(k ast.Node) bool {
+				switch x := k.(type) {
+				case *ast.BlockStmt:
+					x.List = rewriteList(x.List)
+				case *ast.CaseClause:
+					x.Body = rewriteList(x.Body)
+				case *ast.CommClause:
+					x.Body = rewriteList(x.Body)
+				}
+				return true
+			})
 		}
 	}
 	return n
